@@ -141,17 +141,19 @@ Theorem C02_moving_walk :
          (i <= j)%nat ->
          (j <= e)%nat ->
          adm_pat c ww vid pat ->
-         match sp_walk_mv c vid (a_xs av) pat i j stw with
-         | Some (WDone rets evs1 i' j' st' _) =>
+         match sp_walk_mv c vid (a_xs av) pat i j stw (unext (wuw ww)) with
+         | Some (WDone rets evs1 i' j' st' _ nx') =>
              exists ww' : world,
                walk c vid a cleanup pat {| ci := N.of_nat i; ce := N.of_nat j |} ww =
                Ok (rets, {| ci := N.of_nat i'; ce := N.of_nat j' |}) ww' /\
-               WalkM c w vid av vv s ww' st' (evs ++ evs1) /\ (i <= i')%nat /\ (i' <= j' <= j)%nat
-         | Some (WStop p evs1 i' j' st' _) =>
+               WalkM c w vid av vv s ww' st' (evs ++ evs1) /\
+               unext (wuw ww') = nx' /\ (i <= i')%nat /\ (i' <= j' <= j)%nat
+         | Some (WStop p evs1 i' j' st' _ nx') =>
              exists ww1 : world,
                walk c vid a cleanup pat {| ci := N.of_nat i; ce := N.of_nat j |} ww =
                unwound p (cleanup {| ci := N.of_nat i'; ce := N.of_nat j' |}) ww1 /\
-               WalkM c w vid av vv s ww1 st' (evs ++ evs1) /\ (i <= i')%nat /\ (i' <= j' <= j)%nat
+               WalkM c w vid av vv s ww1 st' (evs ++ evs1) /\
+               unext (wuw ww1) = nx' /\ (i <= i')%nat /\ (i' <= j' <= j)%nat
          | None => True
          end.
 Proof. exact walk_mv_spec. Qed.
@@ -199,10 +201,14 @@ Theorem C02_splice_drop_at_any_cursor :
          match sp_splice_fin c av s e i' j' ts claimed (N.of_nat (length ts)) with
          | inl p =>
              exists w' : world,
-               finish ww = Panic p w' /\ step_ok c w0 w' st' (evs ++ (if c_dg c then map EDrop ts else [])) 0
+               finish ww = Panic p w' /\
+               step_ok c w0 w' st' (evs ++ (if c_dg c then map EDrop ts else []))
+                 (unext (wuw ww) - unext (wuw w0))
          | inr (fevs, ys) =>
              exists w' : world,
-               finish ww = Ok tt w' /\ step_ok c w0 w' (set_a vid (Some (with_xs av ys)) st') (evs ++ fevs) 0
+               finish ww = Ok tt w' /\
+               step_ok c w0 w' (set_a vid (Some (with_xs av ys)) st') (evs ++ fevs)
+                 (unext (wuw ww) - unext (wuw w0))
          end.
 Proof. exact splice_finish. Qed.
 
